@@ -164,6 +164,10 @@ package db
 //@ pred histIncoming(in *HybridLogicalVector) bool
 //@   is in.SourceID == old(in.SourceID) && in.Version == old(in.Version) && in.MergeVersions == old(in.MergeVersions) && in.PreviousVersions == old(in.PreviousVersions) && mvUnchanged(in) && pvUnchanged(in)
 
+// the receiving vector's maps are the ones it had on entry, or new ones (never a map some other vector holds); the merge versions are kept or dropped
+//@ pred histNewMaps(h *HybridLogicalVector) bool
+//@   is (h.PreviousVersions == old(h.PreviousVersions) || !old(allocated(now(h.PreviousVersions)))) && (h.MergeVersions == old(h.MergeVersions) || h.MergeVersions == nil)
+
 //@ func HybridLogicalVector.UpdateHistory
 //@   requires hlv != nil && incomingHLV != nil && hlvWF(hlv) && hlvSeparate(hlv, incomingHLV)
 //@   modifies hlv.PreviousVersions, hlv.MergeVersions, elems(hlv.PreviousVersions)
@@ -173,6 +177,8 @@ package db
 //@   ensures[keeps]    histKeeps(hlv)
 //@   ensures[only]     histOnly(hlv, incomingHLV)
 //@   ensures[receives] forall s string :: {hhas(hlv, s)} {old(hhas(incomingHLV, s))} old(hhas(incomingHLV, s)) ==> hhas(hlv, s)
+//@   ensures[new-map]  histNewMaps(hlv)
+//@   loop * invariant[new-map]  histNewMaps(hlv)
 //@   loop * invariant[recv-cv]  incomingHLV.SourceID == "" || hhas(hlv, incomingHLV.SourceID)
 //@   loop * invariant[recv]     forall s string :: {s in #visited} (s in #visited) && s != "" ==> hhas(hlv, s)
 //@   loop 3 invariant[recv-mv]  forall s string :: {s in incomingHLV.MergeVersions} (s in incomingHLV.MergeVersions) && s != "" ==> hhas(hlv, s)
@@ -197,3 +203,110 @@ package db
 //@   ensures[incoming]  isNilErr(result) ==> (forall s string :: {hhas(hlv, s)} {old(hhas(incomingHLV, s))} old(hhas(incomingHLV, s)) ==> hhas(hlv, s))
 //@   ensures[only]      isNilErr(result) ==> (forall s string :: {hhas(hlv, s)} hhas(hlv, s) ==> old(hhas(hlv, s)) || old(hhas(incomingHLV, s)) || s == newCV.SourceID)
 //@   ensures[unchanged] !isNilErr(result) ==> hlv.SourceID == old(hlv.SourceID) && hlv.Version == old(hlv.Version) && pvUnchanged(hlv) && mvUnchanged(hlv)
+//@   ensures[incoming-kept] histIncoming(incomingHLV)
+//@   ensures[new-pv]    hlv.PreviousVersions == old(hlv.PreviousVersions) || !old(allocated(now(hlv.PreviousVersions)))
+//@   ensures[new-mv]    hlv.MergeVersions == old(hlv.MergeVersions) || hlv.MergeVersions == nil || !old(allocated(now(hlv.MergeVersions)))
+//@   ensures[separate]  isNilErr(result) ==> hlvSeparate(hlv, incomingHLV)
+
+// ---- local version generation (crud.go): "versions generated locally strictly increase per source" ----
+
+// sg-bucket hlc.go (dependency, body not loaded):
+//   next := clock() &^ mask; if highestTime+1 > next { next = highestTime+1 }; if floor+1 > next { next = floor+1 }; highestTime = next; return next
+// ASSUMED: the result is strictly above the caller's floor unless floor is the largest uint64 (floor+1 wraps to 0 in the
+// real code, so nothing is promised then); it writes only the clock's own unexported fields (mutex, highestTime), which
+// no code or contract of package db can observe, hence no `modifies`.
+//@ extern func github.com/couchbase/sg-bucket.HybridLogicalClock.Now
+//@   ensures[above-floor] floor < 18446744073709551615 ==> result > floor
+
+// maps.Clone (go1.26 src/maps/maps.go: `if m == nil { return nil }; return clone(m).(M)`): nil for nil, otherwise a NEW
+// map with the same keys and values; writes nothing that existed before the call. (Same assumption as
+// /verif/trusted/c05_callbacks.spec makes for the AttachmentsMeta instance.)
+//@ extern func maps.Clone[db.HLVVersions,string,uint64]
+//@   ensures[nil]    m == nil ==> result == nil
+//@   ensures[fresh]  m != nil ==> result != nil && !old(allocated(now(result)))
+//@   ensures[keys]   forall k string :: {k in result} (k in result) <==> (k in m)
+//@   ensures[values] forall k string :: {result[k]} (k in m) ==> result[k] == m[k]
+
+// b lists exactly the entries of a (same current version, same merge and previous versions)
+//@ pred sameVector(a *HybridLogicalVector, b *HybridLogicalVector) bool
+//@   is a.SourceID == b.SourceID && a.Version == b.Version &&
+//@      (forall k string :: {k in a.MergeVersions} {k in b.MergeVersions} ((k in a.MergeVersions) <==> (k in b.MergeVersions)) && ((k in a.MergeVersions) ==> a.MergeVersions[k] == b.MergeVersions[k])) &&
+//@      (forall k string :: {k in a.PreviousVersions} {k in b.PreviousVersions} ((k in a.PreviousVersions) <==> (k in b.PreviousVersions)) && ((k in a.PreviousVersions) ==> a.PreviousVersions[k] == b.PreviousVersions[k]))
+
+//@ func HybridLogicalVector.Copy
+//@   ensures[nil]      hlv == nil ==> result == nil
+//@   ensures[fresh]    hlv != nil ==> result != nil && !old(allocated(now(result)))
+//@   ensures[same]     hlv != nil ==> sameVector(result, hlv)
+//@   ensures[separate] hlv != nil ==> hlvSeparate(result, hlv)
+//@   ensures[new-maps] hlv != nil ==> (result.MergeVersions == nil || !old(allocated(now(result.MergeVersions)))) && (result.PreviousVersions == nil || !old(allocated(now(result.PreviousVersions))))
+//@   ensures[wf]       hlv != nil && hlvWF(hlv) ==> hlvWF(result)
+
+// every value h lists for source s - as current, merge or previous version - is strictly below v
+//@ pred allBelow(h *HybridLogicalVector, s string, v uint64) bool
+//@   is (h.SourceID == s ==> h.Version < v) && ((s in h.MergeVersions) ==> h.MergeVersions[s] < v) && ((s in h.PreviousVersions) ==> h.PreviousVersions[s] < v)
+
+//@ lemma maxValue_covers(h *HybridLogicalVector, s string, v uint64)
+//@   requires h != nil && hlvWF(h) && s != "" && v > h.maxValueForSource(s)
+//@   ensures[all] allBelow(h, s, v)
+
+// github.com/pkg/errors.New (errors.go:102) is `return &fundamental{msg: message, stack: callers()}`: a non-nil error,
+// no write to existing memory. ASSUMED (same as errors.New in /verif/trusted/stdlib.spec).
+//@ extern func github.com/pkg/errors.New
+//@   inert
+//@   ensures !isNilErr(result)
+
+// resolveDocMerge (crud.go:2203) rewrites the revision tree of the local document (tombstone), the body / attachments /
+// RevID of the remote document and writes a revision backup to the bucket.
+// ASSUMED (trusted, body not checked; far too many uncontracted storage and rev-tree callees to frame): it does not touch
+// either document's version vector. By reading: neither resolveDocMerge nor its callees SetAttachments,
+// tombstoneActiveRevision (addRevision, BodyBytes, setOldRevisionJSON, RemoveBody), ParseRevID, CreateRevID mention
+// .HLV or any HybridLogicalVector field. Everything else may change (`modifies *`).
+//@ func DatabaseCollectionWithUser.resolveDocMerge
+//@   trusted
+//@   modifies *
+//@   ensures[hlv-untouched] localDoc.HLV == old(localDoc.HLV) && remoteDoc.HLV == old(remoteDoc.HLV) && db.dbCtx == old(db.dbCtx) && db.dbCtx.EncodedSourceID == old(db.dbCtx.EncodedSourceID)
+//@   ensures[local-same]    old(localDoc.HLV) != nil ==> histIncoming(localDoc.HLV)
+//@   ensures[remote-same]   old(remoteDoc.HLV) != nil ==> histIncoming(remoteDoc.HLV)
+
+// resolveDocMergeHLV: the vector of a locally generated merge revision.
+// Property clauses: the merge's current version is stamped with THIS node's source and a value strictly above every value
+// either input vector lists for that source (current, merge or previous version: "versions generated locally strictly
+// increase per source"), so for our source the merged vector strictly dominates both inputs ("no source's value lowered");
+// no source of either input is lost; the inputs themselves are not modified; the result is a new vector.
+// [not-exhausted]: a vector that already lists the largest uint64 for our source leaves no larger value to generate
+// (HybridLogicalClock.Now wraps: see the observation in the report); excluded.
+//@ func DatabaseCollectionWithUser.resolveDocMergeHLV
+//@   requires db != nil && db.DatabaseCollection != nil && db.dbCtx != nil && localDoc != nil && remoteDoc != nil && localDoc != remoteDoc && db.dbCtx.EncodedSourceID != ""
+//@   requires[wf] localDoc.HLV != nil && remoteDoc.HLV != nil ==> hlvWF(localDoc.HLV) && hlvWF(remoteDoc.HLV) && hlvSeparate(localDoc.HLV, remoteDoc.HLV) && localDoc.HLV.SourceID != "" && remoteDoc.HLV.SourceID != ""
+//@   requires[concurrent] localDoc.HLV != nil && remoteDoc.HLV != nil ==> !localDoc.HLV.DominatesSource(Version{SourceID: remoteDoc.HLV.SourceID, Value: remoteDoc.HLV.Version}) && !remoteDoc.HLV.DominatesSource(Version{SourceID: localDoc.HLV.SourceID, Value: localDoc.HLV.Version})
+//@   requires[not-exhausted] localDoc.HLV != nil && remoteDoc.HLV != nil ==> localDoc.HLV.maxValueForSource(db.dbCtx.EncodedSourceID) < 18446744073709551615 && remoteDoc.HLV.maxValueForSource(db.dbCtx.EncodedSourceID) < 18446744073709551615
+//@   modifies *
+//@   before[floor-covers-local]  call Now#1 $1 >= localDoc.HLV.maxValueForSource(db.dbCtx.EncodedSourceID)
+//@   before[floor-covers-remote] call Now#1 $1 >= remoteDoc.HLV.maxValueForSource(db.dbCtx.EncodedSourceID)
+//@   before[own-source]          call MergeWithIncomingHLV#1 $1.SourceID == db.dbCtx.EncodedSourceID && $1.Value == callres(Now, 1, 0) && $2 == remoteDoc.HLV
+//@   before[merges-copy-of-local] call MergeWithIncomingHLV#1 $0 != localDoc.HLV && sameVector($0, localDoc.HLV)
+//@   before[above-local]         call MergeWithIncomingHLV#1 allBelow(localDoc.HLV, $1.SourceID, $1.Value)
+//@   before[above-remote]        call MergeWithIncomingHLV#1 allBelow(remoteDoc.HLV, $1.SourceID, $1.Value)
+//@   ensures[nil-vector]    old(localDoc.HLV) == nil || old(remoteDoc.HLV) == nil ==> !isNilErr(err)
+//@   ensures[inputs-kept]   isNilErr(err) ==> localDoc.HLV == old(localDoc.HLV) && remoteDoc.HLV == old(remoteDoc.HLV) && histIncoming(localDoc.HLV) && histIncoming(remoteDoc.HLV)
+//@   ensures[new-vector]    isNilErr(err) ==> hlv != nil && hlv != localDoc.HLV && hlv != remoteDoc.HLV && hlvSeparate(hlv, localDoc.HLV) && hlvSeparate(hlv, remoteDoc.HLV)
+//@   ensures[own-cv]        isNilErr(err) ==> hlv.SourceID == old(db.dbCtx.EncodedSourceID) && hlv.Version == callres(Now, 1, 0) && hlvWF(hlv)
+//@   ensures[above-local]   isNilErr(err) ==> allBelow(localDoc.HLV, hlv.SourceID, hlv.Version)
+//@   ensures[above-remote]  isNilErr(err) ==> allBelow(remoteDoc.HLV, hlv.SourceID, hlv.Version)
+//@   ensures[dominates]     isNilErr(err) ==> hval(hlv, hlv.SourceID) > hval(localDoc.HLV, hlv.SourceID) && hval(hlv, hlv.SourceID) > hval(remoteDoc.HLV, hlv.SourceID)
+//@   ensures[keeps-local]   isNilErr(err) ==> (forall s string :: {hhas(hlv, s)} {hhas(localDoc.HLV, s)} hhas(localDoc.HLV, s) ==> hhas(hlv, s))
+//@   ensures[keeps-remote]  isNilErr(err) ==> (forall s string :: {hhas(hlv, s)} {hhas(remoteDoc.HLV, s)} hhas(remoteDoc.HLV, s) ==> hhas(hlv, s))
+
+// updateHLV (crud.go:1157), path contract. For the two events that create a new local version the entry added to the
+// document's vector is exactly (this node's source, the value generated by documentUpdateFunc from the HLC with the
+// vector's own maximum as floor: see [version-floor] in the documentUpdateFunc block of zz_verif_c11.go), it is added to
+// the document's own vector through AddVersion (which refuses a value below the recorded one: AddVersion/post/rejected,
+// not-lower), and a refusal fails the update. No other event adds an entry under this node's HLC.
+// Call numbering (SSA block order): AddVersion#1 = NewVersion/ExistingVersionWithUpdateToHLV, #2 = Import, #3 = ExistingVersionLegacyRev.
+//@ func DatabaseCollectionWithUser.updateHLV
+//@   modifies *
+//@   only-contracts none
+//@   propagates AddVersion#1
+//@   before[stamps-generated]  call AddVersion (docUpdateEvent == NewVersion || docUpdateEvent == ExistingVersionWithUpdateToHLV) ==> $1.SourceID == db.dbCtx.EncodedSourceID && $1.Value == generatedVersion && $0 == d.HLV && $0 != nil
+//@   ensures[generated-added]  (docUpdateEvent == NewVersion || docUpdateEvent == ExistingVersionWithUpdateToHLV) && isNilErr(result1) ==> called(AddVersion, 1)
+//@   ensures[generated-only]   (docUpdateEvent == NewVersion || docUpdateEvent == ExistingVersionWithUpdateToHLV) ==> !called(AddVersion, 2) && !called(AddVersion, 3)
